@@ -9,6 +9,7 @@ void
 sodium_misuse(void)
 {
     CHECK(verif_misuse_expected, "sodium_misuse() reached although the call is within contract");
+    WITNESS(); /* reaching a specified misuse abort is a reachability witness too */
 #ifdef REPLAY
     printf("REPLAY-MISUSE-AS-SPECIFIED\n");
     exit(0);
